@@ -87,6 +87,30 @@ func plant(r *rand.Rand, text string, k int, cc byte, prefixes ...string) (strin
 	return strings.Join(lines, "\n"), planted
 }
 
+// sprinkleEmptyNotes inserts note lines without content below the first heading.
+func sprinkleEmptyNotes(r *rand.Rand, text string, cc byte) string {
+	crlf := strings.Contains(text, "\r\n")
+	lines := strings.Split(text, "\n")
+	var out []string
+	seenHeading := false
+	for li, ln := range lines {
+		out = append(out, ln)
+		l := strings.TrimRight(ln, "\r")
+		if l != "" && l[0] != ' ' && l[0] != '\t' && l[0] != cc && l[0] != '-' {
+			seenHeading = true
+		}
+		if seenHeading && li < len(lines)-1 && r.Intn(5) == 0 {
+			c := string([]byte{cc})
+			note := []string{"  " + c, "\t" + c + " ", "  " + c + c, "- " + c, "    " + c + "  ", " " + c + "\t"}[r.Intn(6)]
+			if crlf {
+				note += "\r"
+			}
+			out = append(out, note)
+		}
+	}
+	return strings.Join(out, "\n")
+}
+
 var c09LogCmds = [][]string{{"reg"}, {"reg", "-s", "x"}, {"reg", "-f", "a"}, {"reg", "--use-old-reg-reporter"}, {"bal"}, {"bal", "-c"}, {"bal", "-s", "x"}, {"csv", "log"}, {"print"}, {"summary", "DATE"}, {"report", "totals"}, {"report", "quantity"}, {"report", "unresolved"}, {"stats"}}
 var c09BookCmds = [][]string{{"reg"}, {"reg", "-s", "x", "-g"}, {"bal"}, {"bal", "-s", "x"}, {"csv", "database"}, {"csv", "database-resolved"}, {"report", "element-total", "x"}, {"report", "totals"}, {"report", "unresolved"}, {"summary", "DATE"}, {"stats"}}
 
@@ -128,6 +152,11 @@ func runC09(c *core.Ctx) {
 				pfx = append(pfx, string(rune(ccn)), string(rune(ccn)))
 			}
 			c.Count("files_under_another_comment_character", 1)
+		}
+		if i%4 == 1 {
+			// notes without content ("  #", "- #", "\t# ") inside records: well formed, never an error
+			book, log = sprinkleEmptyNotes(r, book, cc), sprinkleEmptyNotes(r, log, cc)
+			c.Count("files_with_empty_notes", 1)
 		}
 		if inLog {
 			log, planted = plant(r, log, k, cc, pfx...)
